@@ -43,6 +43,32 @@ PLAN = {
         quick=[rapid("prop", "TestProp", 5000), enum("enum", "TestEnum", shards=11, env={"VERIF_C02_ENUM_LEN": 5})],
         thorough=[rapid("prop", "TestProp", 40000, shards=16), enum("enum", "TestEnum", shards=11, env={"VERIF_C02_ENUM_LEN": 6})],
     ),
+    "C03": dict(
+        pkg="c03",
+        rule=("rapid-generated build histories of string cells over a width-hostile alphabet (multi-line, CJK wide, full-width, combining, zero-width, emoji ZWJ/flag/skin-tone sequences, grapheme extenders, tabs), "
+              "ragged and zero-cell rows, header anywhere in the history or absent, separators anywhere, Row.Add after attach; decoration = each of the six built-ins (by registry name or constructor) or a custom decoration "
+              "(random non-empty subset of the 22 glyph fields set to distinct width-1 glyphs, completed by Populate). Oracle: independent reference renderer written from the statement, byte-exact comparison; plus, "
+              "where the library's measure is additive for every cell line, all rendered lines must have equal display width. Tables with zero columns are out of the property's domain and skipped (counted). "
+              "Non-trivial: a multi-line cell, a non-ASCII/wide/zero-width token, a ragged or zero-cell row, a header narrower than the body, or a custom decoration. Distinct: FNV-64 of the case."),
+        level_text=("Generated-input search with a differential oracle (independent reference renderer) and a metamorphic rectangle check computed only from the actual output; native fuzzing of cell texts. Exploration level."),
+        level_note="Trusts the reference renderer (internal/oracle/text.go, ~200 lines, shares only length.StringCells with the library), Populate() for filling custom decorations, and glyphs of display width 1 (the documented precondition).",
+        technique="property-based testing (rapid) with an independent reference renderer (differential) + rectangle invariant + native Go fuzzing",
+        quick=[rapid("prop", "TestProp", 6000)],
+        thorough=[rapid("prop", "TestProp", 40000, shards=16), fuzz("fuzz", "FuzzC03", 45)],
+    ),
+    "C04": dict(
+        pkg="c04",
+        rule=("C03's grids crossed with an alignment drawn from {unset,left,right,centre} for column 0 and each column, and with items from the interface matrix that declare their own width "
+              "(single non-empty text line incl. ANSI escapes, declared 0..12: smaller, equal, larger than measured) and/or height (declared 0..5 against 0..n text lines, incl. empty text). "
+              "Oracle: the reference renderer extended by the statement (effective alignment = own else column 0 else left; pad right/left/split with the odd space on the right; declared width used for column and padding; "
+              "row height = max(declared height, text lines, 1)), byte-exact. Plus full enumeration of 4^3 alignment assignments on three fixed grids under three decorations. "
+              "Non-trivial: a column inherits its alignment from column 0, or a centred line has an odd pad, or an item overrides its size. Distinct: FNV-64 of the case."),
+        level_text=("Generated-input search with a differential oracle (reference renderer) over alignments and size-overriding items, plus a small exhaustive alignment matrix. Exploration level."),
+        level_note="Same trusted base as C03. Width-declaring items are generated with exactly one non-empty text line (what the statement covers); negative declarations and non-Alignment property values are out of domain.",
+        technique="property-based testing (rapid) with an independent reference renderer (differential) + exhaustive alignment matrix",
+        quick=[rapid("prop", "TestProp", 6000), enum("matrix", "TestEnum")],
+        thorough=[rapid("prop", "TestProp", 40000, shards=16), enum("matrix", "TestEnum")],
+    ),
     "C05": dict(
         pkg="c05",
         rule=("rapid-generated build histories (AddHeaders/AddRowItems/NewRow*/Row.Add before and after attach/AddRow/AddSeparator/AppendNewRow) "
